@@ -18,9 +18,17 @@ type yieldStore struct {
 	inner e2wtypes.Store
 	s     *Sched
 	inst  func() *Instance
+	// hook, if it returns a function, is told about every operation before it is carried out (a runner uses it to
+	// let a client go away at exactly that instant).
+	hook func() func(op string)
 }
 
 func (y *yieldStore) yield(op string) error {
+	if y.hook != nil {
+		if h := y.hook(); h != nil {
+			h(op)
+		}
+	}
 	if y.s == nil {
 		return nil
 	}
